@@ -241,3 +241,94 @@ Theorem constants_match_readme :
   magic = 1491823373 /\ magic = rs_magic /\ file_header_len = 32 /\ frame_header_len = 8 /\
   FileNameProbe = rs_file_name 1234567 11259375.
 Proof. repeat split; reflexivity. Qed.
+
+(* ---------------- only the last batch can seal ---------------- *)
+Fixpoint only_last_sealed (bs : list batch) : Prop :=
+  match bs with
+  | [] => True
+  | b :: r => match r with [] => True | _ => snd b = false /\ only_last_sealed r end
+  end.
+
+Lemma wrun_after_sealed info ops : forall s w acts bs,
+  c_istart s <> 0 -> wrun (wst info s) ops = Some (w, acts, bs) -> bs = [].
+Proof.
+  induction ops as [|op r IH]; intros s w acts bs Hs H.
+  - cbn in H. inversion H. reflexivity.
+  - cbn [wrun] in H.
+    assert (Hsealed : (0 <? w_index_start (wst info s)) = true)
+      by (cbn [wst w_index_start]; apply N.ltb_lt; lia).
+    destruct op as [es|]; cbn [do_op] in H.
+    + destruct es as [|e0 r0].
+      * cbn [append] in H. destruct (wrun (wst info s) r) as [[[w2 a2] b2]|] eqn:E; [|discriminate].
+        inversion H; subst. cbn [op_batch app]. eapply IH; eassumption.
+      * unfold append in H. rewrite Hsealed in H. discriminate.
+    + unfold force_seal in H. rewrite Hsealed in H.
+      destruct (wrun (wst info s) r) as [[[w2 a2] b2]|] eqn:E; [|discriminate].
+      inversion H; subst. cbn [op_batch]. unfold sealed. rewrite Hsealed. cbn [app]. eapply IH; eassumption.
+Qed.
+
+Lemma op_batch_shape w w' op : op_batch w w' op = [] \/ exists b, op_batch w w' op = [b].
+Proof.
+  destruct op as [es|]; cbn [op_batch].
+  - destruct es; [left; reflexivity|right; eexists; reflexivity].
+  - destruct (sealed w); [left; reflexivity|right; eexists; reflexivity].
+Qed.
+
+Lemma wrun_seal_shape info ops : forall s w acts bs,
+  wrun (wst info s) ops = Some (w, acts, bs) ->
+  len (c_img (fold_left (cstep info) bs s)) < two32 ->
+  c_istart s = 0 -> only_last_sealed bs.
+Proof.
+  induction ops as [|op r IH]; intros s w acts bs H Hlen Hs.
+  - cbn in H. inversion H. exact I.
+  - pose proof H as H0. cbn [wrun] in H.
+    destruct (do_op (wst info s) op) as [[res w'] acts0] eqn:Eop. destruct res; try discriminate.
+    destruct (wrun w' r) as [[[w2 acts2] bs2]|] eqn:Er; [|discriminate].
+    inversion H; subst w2 acts bs. clear H.
+    set (bs1 := op_batch (wst info s) w' op) in *.
+    assert (H1 : wrun (wst info s) [op] = Some (w', acts0 ++ [], bs1 ++ [])).
+    { cbn [wrun]. rewrite Eop. reflexivity. }
+    rewrite !app_nil_r in H1.
+    assert (Hl1 : len (c_img (fold_left (cstep info) bs1 s)) < two32).
+    { rewrite fold_left_app in Hlen.
+      pose proof (len_img_fold_mono info bs2 (fold_left (cstep info) bs1 s)). lia. }
+    destruct (wrun_char info [op] s w' acts0 bs1 H1 Hl1) as (Ew' & _ & _).
+    rewrite Ew' in Er. rewrite fold_left_app in Hlen.
+    destruct (op_batch_shape (wst info s) w' op) as [E|[b E]]; fold bs1 in E; rewrite E in *.
+    + cbn [fold_left app] in *. eapply IH; eassumption.
+    + cbn [fold_left app] in *. destruct (snd b) eqn:Eb.
+      * assert (Hne : c_istart (cstep info s b) <> 0).
+        { cbn [cstep c_istart]. rewrite Eb. lia. }
+        rewrite (wrun_after_sealed info r _ _ _ _ Hne Er). exact I.
+      * assert (Hz : c_istart (cstep info s b) = 0) by (cbn [cstep c_istart]; rewrite Eb; reflexivity).
+        specialize (IH _ _ _ _ Er Hlen Hz). cbn [only_last_sealed].
+        destruct bs2; [exact I|]. split; assumption.
+Qed.
+
+Lemma istart_readme info bs : forall s,
+  only_last_sealed bs -> bs <> [] ->
+  c_istart (fold_left (cstep info) bs s) = rs_index_start_from (c_pos info s) bs.
+Proof.
+  induction bs as [|[ps seal] bs IH]; intros s Ho Hne; [congruence|].
+  cbn [fold_left rs_index_start_from]. destruct bs as [|b2 bs'].
+  - cbn [fold_left cstep c_istart fst snd]. destruct seal; reflexivity.
+  - cbn [only_last_sealed] in Ho. destruct Ho as [Hs Ho]. cbn [snd] in Hs. subst seal.
+    rewrite IH by (assumption || discriminate).
+    rewrite c_pos_cstep, len_img_cstep, len_batch_body. cbn [fst snd].
+    rewrite entries_bytes_readme. f_equal. lia.
+Qed.
+
+(* the IndexStart the writer reports is the README's: the offset of the index
+   array of the (only, last) sealing batch, 0 when unsealed *)
+Theorem index_start_readme info ops w acts bs :
+  wrun (init_empty info) ops = Some (w, acts, bs) -> len (layout (hdr_of info) bs) < two32 ->
+  only_last_sealed bs /\ w_index_start w = rs_index_start bs.
+Proof.
+  intros H Hl. rewrite <- image_is_layout in Hl.
+  destruct (wrun_image info ops w acts bs H Hl) as (Ew & _ & _).
+  rewrite <- wst_c0 in H.
+  pose proof (wrun_seal_shape info ops c0 w acts bs H Hl eq_refl) as Hshape.
+  split; [exact Hshape|]. subst w. cbn [wst w_index_start]. unfold rs_index_start.
+  destruct bs as [|b0 bs0] eqn:Eb; [reflexivity|]. rewrite <- Eb in *.
+  unfold cstate. rewrite istart_readme by (assumption || (rewrite Eb; discriminate)). reflexivity.
+Qed.
